@@ -413,7 +413,7 @@ def extract_xml_render(defs, consts):
             lits.append(("fmt", unescape(m.group(1))))
         else:
             lits.append(("lit", unescape(m.group(2))))
-    names = [("fmtStartTagOpen", "fmt", 1), ("litEmptyTagClose", "lit", 0), ("litTagClose", "lit", 0),
+    names = [("litMissingPrefixNoNamespace", "lit", 0), ("fmtStartTagOpen", "fmt", 1), ("litEmptyTagClose", "lit", 0), ("litTagClose", "lit", 0),
              ("fmtEndTag", "fmt", 1), ("litEmptyEndTag", "lit", 0), ("litXmlPrefix", "lit", 0),
              ("fmtXmlnsDefault", "fmt", 1), ("fmtXmlnsPrefix", "fmt", 2), ("fmtAttribute", "fmt", 2),
              ("fmtComment", "fmt", 1), ("fmtPiData", "fmt", 2), ("fmtPi", "fmt", 1)]
